@@ -186,6 +186,11 @@ func (lm *levelManager) searchLowerBound(key types.Key) (types.Entry, bool) {
 		return types.Entry{}, false
 	}
 
+	// the newest version at or below the requested one may live in any table:
+	// L0 tables overlap each other and a deeper level can hold another version
+	// of the key, so every table is consulted and the newest match wins
+	var best types.Entry
+	var found bool
 	for level, tables := range lm.levels {
 		for e := tables.Front(); e != nil; e = e.Next() {
 			th := e.Value.(tableHandle)
@@ -205,13 +210,17 @@ func (lm *levelManager) searchLowerBound(key types.Key) (types.Entry, bool) {
 
 			// in this sstable, search according to data block
 			entry, ok := lm.fetchAndSearchLowerBound(key, level, th.levelIdx, dataBlockHandle)
-			if ok {
-				return entry, true
+			if !ok || !types.IsSameKey(key, entry.Key) {
+				// the lower bound in this sstable belongs to another key
+				continue
+			}
+			if !found || types.CompareKeys(entry.Key, best.Key) < 0 {
+				best, found = entry, true
 			}
 		}
 	}
 
-	return types.Entry{}, false
+	return best, found
 }
 
 // TODO: replace with iterator
